@@ -43,6 +43,25 @@ CHECKS = {
          "Every handler of every enumerated (message, handler list, mutation kind) must observe exactly the original content and the caller's message must be unchanged; asynchronous handlers are real library goroutines run under the controlled scheduler against a caller overwriting its message after Serve returned, for all schedules within the preemption bound.",
          "trusted: the oracle's deep-copy bookkeeping, vrt scheduler; payloads longer than 3 bytes and more than 3 handlers are not covered",
          "DESIGN.md 3 C20"),
+ "C07": ("exhaustive exploration (all acknowledgement orders and foreign/duplicate/unsolicited acknowledgements as free choices; preemptions P<=2/3, select deviations S<=1) of K=2,3 concurrent real BaseClient callers against a scripted peer",
+         "For every pair/triple of request kinds the peer delivers the owed acknowledgements in every order, optionally preceded or followed by acknowledgements of other kinds/identifiers, duplicates and unsolicited packets; in a second mode it answers inside the client's Write under all schedules within the preemption bound. A call may return nil only after its own final acknowledgement was delivered, every call returns once its acknowledgements are delivered, Subscribe returns the granted QoS in order; every SUBACK return-code vector over {0,1,2,0x80}^n and wrong lengths is enumerated.",
+         "trusted: vrt scheduler+shims, rewriter, scripted peer, independent codec; more than 3 concurrent callers and identifiers beyond the ones drawn are not covered",
+         "DESIGN.md 3 C07"),
+ "C08": ("stateless exhaustive DFS over fault placements of the real reconnecting client for every Subscribe/Unsubscribe call sequence of the bounded alphabet x (session kept, AlwaysResubscribe, CleanSession) configurations; table oracle at quiescence; exhaustive enumeration of the bookkeeping type against a map",
+         "Every call sequence of length<=2/3 over a 10-symbol alphabet (repeated filters, changed QoS, multi-filter calls, duplicates inside a call, unsubscribing absent filters, a publish) is run with every placement of <=F connection cuts; at quiescence the broker model's subscription table must equal the fold of the accepted calls, no resubscription may appear on the first connection, and with a kept session no SUBSCRIBE may be acknowledged more often than the application asked for.",
+         RC_NOTE, "DESIGN.md 3 C08"),
+ "C10": ("happens-before race monitor (vector clocks over exactly the Go memory model edges) and chunked-write atomicity oracle evaluated on every execution of an exhaustive, deviation-bounded schedule exploration of all call pairs on BaseClient and on the reconnecting client (with a reconnect in progress)",
+         "Every unordered pair of API calls runs concurrently with each other, with the reader acknowledging inbound QoS 1/2 traffic and (upper layers) with a reconnect; all schedules within the stated preemption / delay bound are executed on the instrumented real code; any two conflicting accesses not ordered by happens-before are reported (so detection does not depend on the accesses being adjacent in a lucky run), and every Write must stay contiguous on a transport that hands each Write to the peer in two chunks.",
+         "trusted: vrt scheduler+shims and the vector-clock monitor, rewriter instrumentation of struct fields, maps and captured variables (slice elements and data behind pointers handed to user code are not instrumented); transport reads/writes are not treated as happens-before edges",
+         "DESIGN.md 3 C10, 2.6"),
+ "C11": ("exhaustive schedule exploration (P<=1/2 after settling, P<=2/3 S<=1 T<=1 with a racing cause) of every blocking call x exchange step x cause on a real BaseClient / ReconnectClient under virtual time",
+         "For every call kind, every step of its exchange and every cause (context cancel, deadline, local Close, peer close, malformed packet, cause before the call) alone and in pairs, at quiescence no caller is still blocked, a cancelled context is reported as that context's error, Done() is closed and the reader task has exited when the connection ended.",
+         "trusted: vrt scheduler+shims (virtual time, context shim), scripted peer; known finding recorded for calls issued while a Connect is stalled",
+         "DESIGN.md 3 C11"),
+ "C15": ("exhaustive enumeration of all 65,536 counter states and full wrap-around cycles; fine-grained (every field access a scheduling point) exhaustive exploration with P<=2/3 of 2-3 concurrent callers around the wrap with the happens-before race monitor; one deterministic long-outstanding history",
+         "All counter states are enumerated for zero/repeat; concurrent callers are explored with field-level scheduling points so a non-atomic increment yields a duplicate identifier or a reported race; caller-supplied identifiers must pass through unchanged.",
+         "trusted: vrt scheduler+shims, race monitor, rewriter; more than 3 concurrent callers not covered; the long-outstanding wrap-around reuse is a recorded known finding",
+         "DESIGN.md 3 C15"),
 }
 NA = {}
 
